@@ -670,6 +670,33 @@ def compare_v8(decisions):
     return len(uniq), classes, unknown, nexc
 
 
+# the alphabet over which the grammar fragment of coq/Regex/Grammar.v is enumerated (every symbol satisfies frag_char)
+FRAGMENT_ALPHABET = list("a.|()?*+:")
+
+
+def model_recognises(strings):
+    """extracted recogniser of the grammar fragment: [(in_fragment, recognises)]"""
+    out = run_model("regex", "frag", [enc_str(s) for s in strings])
+    return [tuple(int(x) != 0 for x in ln.split()[:2]) for ln in out]
+
+
+def compare_grammar_v8(maxlen, alphabet=None):
+    """Grammar.v (through its recogniser, proved sound and complete for `Pattern u` on the fragment) vs V8 on every
+    string over the fragment alphabet up to maxlen, in both modes.  Returns (n, mismatches)."""
+    alphabet = alphabet or FRAGMENT_ALPHABET
+    strs = list(gen_exhaustive(maxlen, alphabet))
+    rec = model_recognises(strs)
+    v8n = v8_verdicts([(s, "") for s in strs])
+    v8u = v8_verdicts([(s, "u") for s in strs])
+    mism = []
+    for s, (inf, ok), tn, tu in zip(strs, rec, v8n, v8u):
+        if not inf:
+            mism.append({"kind": "grammar", "pattern": s, "why": "generated string is not in_fragment"})
+        elif tn is None or tu is None or ok != (not tn) or ok != (not tu):
+            mism.append({"kind": "grammar", "pattern": s, "recognises": ok, "v8_throws": tn, "v8_throws_u": tu})
+    return len(strs), sum(1 for _, ok in rec if ok), mism
+
+
 def compare_history(seqs):
     """implementation only: the verdict of each pattern inside a sequence equals its verdict alone."""
     singles = sorted({it for s in seqs for it in s})
@@ -702,7 +729,7 @@ def compare_all(tier="quick", seed=1):
     build_harness("release")
     # regenerate the unicode tables from /repo (written only when they change), rebuild the model, re-extract
     sh([sys.executable, os.path.join(ROOT, "translate", "gen_unicode.py")], timeout=120)
-    ok, out = coq_make(["Regex/RuleDecision.vo"])
+    ok, out = coq_make(["Regex/RuleDecision.vo", "Regex/FragParser.vo"])
     if not ok:
         raise Infra("regex model does not compile:\n" + out[-3000:])
     exe, msg = build_model("regex")
@@ -770,6 +797,8 @@ def compare_all(tier="quick", seed=1):
         counts["debug_seq_items"] = n; mism += m
 
     # ---- (6) the specification side: V8
+    ng, ngok, gm = compare_grammar_v8(7 if thorough else 6)
+    counts["grammar_strings"] = ng; counts["grammar_accepted"] = ngok
     nv, classes, unknown, nexc = compare_v8(flat)
     counts["v8_compared"] = nv
     counts["v8_oracle_exceptions"] = nexc
@@ -778,7 +807,7 @@ def compare_all(tier="quick", seed=1):
     res = {
         "tier": tier, "seed": seed, "counts": counts, "mismatches": mism, "history": hist, "dirty": dirty_bad,
         "v8_classes": {c: {"n": len(w), "witness": min(w, key=lambda x: (len(x["pattern"]), x["pattern"]))} for c, w in classes.items()},
-        "v8_unclassified": unknown, "wall_s": round(time.time() - t0, 1),
+        "v8_unclassified": unknown, "wall_s": round(time.time() - t0, 1), "grammar_mismatches": gm,
         "v8_witnesses": {c: sorted(w, key=lambda x: (len(x["pattern"]), x["pattern"], x["flags"] or ""))[:3] for c, w in classes.items()},
         "msgclass_histogram": {str(k): v for k, v in sorted(stats.get("msgclass", {}).items())},
         "samples": [{"pattern": p, "flags": f, "impl_reports": d} for (p, f), d in flat[1000:1003]],
@@ -790,9 +819,9 @@ if __name__ == "__main__":
     tier = sys.argv[1] if len(sys.argv) > 1 else "quick"
     seed = int(sys.argv[2]) if len(sys.argv) > 2 else 1
     r = compare_all(tier, seed)
-    print(json.dumps({k: v for k, v in r.items() if k not in ("mismatches", "v8_unclassified", "history", "dirty", "v8_witnesses")},
+    print(json.dumps({k: v for k, v in r.items() if k not in ("mismatches", "v8_unclassified", "history", "dirty", "v8_witnesses", "grammar_mismatches")},
                      indent=1, ensure_ascii=False))
-    for key in ("mismatches", "history", "dirty", "v8_unclassified"):
+    for key in ("mismatches", "history", "dirty", "v8_unclassified", "grammar_mismatches"):
         print("%s: %d" % (key, len(r[key])))
         for x in r[key][:15]:
             print("   ", json.dumps(x, ensure_ascii=False)[:400])
